@@ -2,6 +2,7 @@
 from fractions import Fraction
 from math import gcd
 
+from ..core import api_call
 from ..gen import notes as G
 from . import c07
 
@@ -25,7 +26,7 @@ ASSUMPTIONS = ["the scanner's notion of measure/row (split on '&', ',', lines) i
 MONITORS = ["readback", "structure", "fixed_point"]
 REQUIRED = ["mixed_denominators", "skipped_measure", "player0_absent", "two_players_absent", "empty_stream",
             "off_grid_beat", "from_text", "corpus_chart", "denominators_share_factor", "stream_given_as_notedata",
-            "beats_alike_to_three_decimals", "denominator_above_a_million"]
+            "beats_alike_to_three_decimals", "denominator_above_a_million", "columns_passed_by_keyword"]
 
 
 def anchors():
@@ -113,7 +114,13 @@ def check(ctx, case):
         nd = NoteData.from_notes(nd0, columns)
         ctx.feat("stream_given_as_notedata")
     else:
-        nd = NoteData.from_notes(iter(stream), columns)
+        if ctx.evaluations % 3 == 0:
+            nd = api_call(ctx, "from_notes(notes, columns=)", NoteData.from_notes, iter(stream), columns=columns)   # as in the documentation's examples
+            ctx.feat("columns_passed_by_keyword")
+        elif ctx.evaluations % 3 == 1:
+            nd = api_call(ctx, "from_notes(notes=, columns=)", NoteData.from_notes, notes=tuple(stream), columns=columns)
+        else:
+            nd = NoteData.from_notes(iter(stream), columns)
     text = str(nd)
     it = iter(nd)
     head = [n for _, n in zip(range(ctx.evaluations % 3), it)]
